@@ -1,4 +1,5 @@
 #!/bin/bash
+export VERIF_EVIDENCE_DIR=/var/tmp/evidence-experiments
 # usage: tools/confirm_seed.sh <name> <dir with patch.diff demo.rs meta.json> <property ids to run...>
 # 1. confirms independently, in a scratch worktree, that the change compiles, the 37 repository tests pass with it,
 #    the demonstration passes without it and fails with it;
